@@ -258,18 +258,23 @@ FormsFails(e) ==
 \* The same encodings cut at every strict prefix and read by the library's reader classes directly (typed block
 \* transfers reach them unchanged): a strict prefix is never reported as decoded (C05).  Written through the checked
 \* writer classes at every capacity below the encoding's length: the write must be refused (C06).
-CutReader(j) == CASE j = 1 -> "buffer" [] j = 2 -> "pedantic" [] OTHER -> "stream"
-CapWriter(j) == IF j = 1 THEN "pedantic" ELSE "constexpr"
+CutReader(j) == CASE j = 1 -> "buffer" [] j = 2 -> "pedantic" [] j = 3 -> "stream" [] j = 4 -> "buffer-by-pointer" [] OTHER -> "buffer-by-unique_ptr"
+CapWriter(j) == CASE j = 1 -> "pedantic" [] j = 2 -> "constexpr" [] j = 3 -> "buffer-by-value" [] j = 4 -> "buffer-by-pointer"
+                  [] OTHER -> "buffer-by-unique_ptr"
 FormsCutFails(e) ==
   UnionOver(Len(e.steps), LAMBDA i :
     LET s == e.steps[i] IN
     IF ~Has(s, "cuts") THEN {}
     ELSE UnionOver(Len(s.cuts), LAMBDA k : UnionOver(Len(s.cuts[k]), LAMBDA j : Tag(s.cuts[k][j] # 0, "prefix-accepted:" \o CutReader(j)))))
+\* (the unchecked BufferWriter relies on Serializer::Write calling Prepare(GetSize) first; 1000 + status: bytes behind
+\* the capacity were overwritten)
 FormsCapFails(e) ==
   UnionOver(Len(e.steps), LAMBDA i :
     LET s == e.steps[i] IN
     IF ~Has(s, "caps") THEN {}
-    ELSE UnionOver(Len(s.caps), LAMBDA k : UnionOver(Len(s.caps[k]), LAMBDA j : Tag(s.caps[k][j] # 0, "written-beyond-capacity:" \o CapWriter(j)))))
+    ELSE UnionOver(Len(s.caps), LAMBDA k : UnionOver(Len(s.caps[k]), LAMBDA j :
+           Tag(s.caps[k][j] # 0 /\ s.caps[k][j] # 1000, "written-beyond-capacity:" \o CapWriter(j))
+           \cup Tag(s.caps[k][j] < 1000, "overrun:" \o CapWriter(j)))))
 
 \* ---- dispatch ---------------------------------------------------------------
 HasPrior(e) == \E i \in 1..Len(e.items) : Has(e.items[i], "prior")
